@@ -119,8 +119,15 @@ impl<L: Localize> OpeningHours<L> {
         (self.expr.rules)
             .iter()
             .map(|rule| {
+                // A rule that matched yesterday may still spill over today with a time span
+                // passing midnight, in which case tomorrow's schedule can differ from today's.
+                let matches_yesterday = || {
+                    date.pred_opt()
+                        .is_some_and(|prev| rule.day_selector.filter(prev, &self.ctx))
+                };
+
                 if rule.time_selector.is_immutable_full_day()
-                    || !rule.day_selector.filter(date, &self.ctx)
+                    || !(rule.day_selector.filter(date, &self.ctx) || matches_yesterday())
                 {
                     rule.day_selector.next_change_hint(date, &self.ctx)
                 } else {
